@@ -11,7 +11,7 @@ CLAIM = {
 
 RULE = ("(a) all Pauli words on <= 3 qubits placed at random indices of a 6-qubit register x coefficient profiles (0, tiny, generic, negative, beyond 2pi) x control in "
         "{none, int, [q], [q1,q2], [q1,q2,q3]}; (b) random qubit operators (1-5 terms incl. identity, words on <= 3 qubits) with integer scalar or per-term times, orders 1/2, "
-        "steps 1-3, optional pauli_order; (c) fermionic operators through trotterize under JW/BK/scBK (oracle only). Non-trivial: word non-empty and coefficient non-zero; distinct by hash")
+        "steps 1-3, optional pauli_order; (b') total times of 1e-5..1e-4 cut into 3000-8000 steps (per-step angle 1e-9..1e-8), commuting and non-commuting, orders 1/2, one step raised to the number of steps (oracle only); (c) fermionic operators through trotterize under JW/BK/scBK (oracle only). Non-trivial: word non-empty and coefficient non-zero; distinct by hash")
 TRUSTED = ["scipy.linalg.expm (oracle)"]
 ASSUMPTIONS = ["commutator bounds: n*(t/n)^2/2*sum||[Hj,Hk]|| (order 1), Childs-Su second-order bound (order 2)"]
 
@@ -242,6 +242,43 @@ def case_fermion(ctx, rng):
     return True
 
 
+def many_steps_case(ctx, rng, force=None):
+    """a fixed (small) total time cut into thousands of steps: the per-step angle is 1e-9 .. 1e-8, the total angle 1e-5 .. 1e-4.
+    Whatever is lost per step accumulates linearly with the number of steps ("any number of steps").  Oracle only: the unitary of
+    one step (the gate list is checked to be periodic) raised to the number of steps, against exp(-i t H)."""
+    from tangelo.toolboxes.operators import QubitOperator
+    from tangelo.toolboxes.ansatz_generator.ansatz_utils import trotterize
+    n = 3
+    steps, order, commuting, per_step, sign, use_dict = force or (rng.choice([3000, 5000, 8000]), rng.choice([1, 2]), rng.random() < 0.5,
+                                                                  rng.choice([1.2e-9, 4e-9, 9e-9]), rng.choice([1, -1]), rng.random() < 0.4)
+    words = [((0, "Z"),), ((1, "Z"), (2, "Z")), ((0, "Z"), (1, "Z"))] if commuting else [((0, "X"),), ((0, "Z"), (1, "Z")), ((1, "Y"), (2, "X"))]
+    coefs = [1.0, -0.5, 0.75]
+    t = sign * per_step * steps * (2 if order == 2 else 1)
+    op = QubitOperator()
+    for w, c in zip(words, coefs):
+        op += QubitOperator(w, c)
+    time = {w: t for w in words} if use_dict else t
+    case = {"kind": "many_steps", "force": [steps, order, commuting, per_step, sign, use_dict]}
+    circ, phase = trotterize(op, time=time, n_trotter_steps=steps, trotter_order=order, return_phase=True)
+    py = [dump_tangelo_gate(g) for g in circ]
+    ctx.case(case, nontrivial=True, sample=False)
+    ctx.count(f"many-steps:order{order}:{'commuting' if commuting else 'noncommuting'}")
+    L = len(py) // steps if steps and len(py) % steps == 0 else 0
+    if L and all(py[i] == py[i % L] for i in range(len(py))):
+        U = np.linalg.matrix_power(np_circuit_unitary(tangelo_dump_to_specs(py[:L]), n), steps) * phase
+    else:
+        U = np_circuit_unitary(tangelo_dump_to_specs(py), n) * phase
+    Hs = [c * t * word_matrix(w, n) for w, c in zip(words, coefs)]
+    exact = expm_herm(sum(Hs, np.zeros((2 ** n, 2 ** n), dtype=complex)), 1.0)
+    err = np.linalg.norm(U - exact, 2)
+    bound = trotter_bound(Hs, 1.0, order, steps)
+    if err > bound + 1e-7:
+        ctx.violation(f"time evolution over total time {t:.3g} in {steps} steps (order {order}, per-step angle {per_step:.2g}, {len(py)} gates): "
+                      f"||circuit*phase - exp(-itH)|| = {err:.3g} exceeds the commutator bound {bound:.3g}", case)
+        return False
+    return True
+
+
 def run(ctx):
     rng = ctx.rng
     controls = [None, None, 5, [5], [4, 5], [3, 4, 5], [0, 5], 0, [0]]     # the bare integer 0 is falsy: a classic slip
@@ -279,6 +316,13 @@ def run(ctx):
         times = [t0] * len(terms) if scalar else [steps * rng.choice([1, 2, -1, 3]) for _ in terms]
         if not case_op(ctx, terms, times, rng.choice([1, 2]), steps, ctl, rng.random() < 0.3, scalar) and len(ctx.violations) + len(ctx.mismatches) >= 3:
             return
+    # (b') thousands of tiny steps: one forced case of each order every run, plus random ones
+    for force in ((3000, 1, True, 9e-9, 1, False), (5000, 2, False, 4e-9, -1, True)):
+        if not many_steps_case(ctx, rng, force):
+            return
+    for i in range(ctx.n(2, 40)):
+        if not many_steps_case(ctx, rng):
+            return
     # (c) fermionic input, oracle only
     for i in range(ctx.n(25, 400)):
         if not case_fermion(ctx, rng):
@@ -291,6 +335,8 @@ def replay(ctx, obj):
         return
     if case.get("kind") == "word":
         case_word(ctx, case["w"], case["coef"], case["control"], case["var"])
+    elif case.get("kind") == "many_steps":
+        many_steps_case(ctx, random.Random(0), tuple(case["force"]))
     elif case.get("kind") == "op":
         case_op(ctx, [(w, g) for w, g in case["terms"]], case["times"], case["order"], case["steps"], case["control"], case["pauli_order"], case["scalar_time"])
 
